@@ -1,4 +1,131 @@
-/- Driver of the `fees` world (stub: to be written by the owner of this world). -/
+/-
+  Driver of the `fees` world: replays an ops file through `Mx.Fees.step` and prints one result
+  line per op line (byte-identical to what harness/src/bin/w_fees.rs prints for the real
+  fees-collector + energy-factory).  Core/Driver imports only.
+
+  header : W fees epoch=<e0> lock=<lockEpochs> users=<n> known=<t,t,…>
+  ops    : deposit <addr> <tok> <nonce> <amount>        claim <addr> <orig|->      claimB <addr> <orig|->
+           updateEnergy <user>                           fop <user> <free text…> = ok <E> <last> <T> | = err
+           setPerBlock <n>   addToken <t>   removeToken <t>   addContract <addr>   removeContract <addr>
+           allowExternal <user> <0|1>   pause <0|1>   advance <epochs>
+  addresses: u<i> → i, d<i> → 100+i, p<i> → 200+i
+-/
+import MxModel.Core.FeesCollector
 import MxModel.Driver.Proto
 
-def main : IO Unit := Mx.Proto.mainLoop () (fun s _ => (s, none))
+open Mx Mx.Weekly Mx.Fees Mx.Proto
+
+namespace Mx.FeesDriver
+abbrev FSt := Mx.Fees.St
+end Mx.FeesDriver
+
+namespace Mx.FeesDriver
+
+/-- number of token roles printed (0 = locked, 1..3 fungible) -/
+def NTOK : Nat := 4
+/-- how many bucket ids past `firstBucketId` are printed -/
+def BUCKET_SPAN : Nat := 216
+
+structure D where
+  s : FSt
+  users : Nat
+
+def parseAddr (t : String) : Option Nat :=
+  match t.toList with
+  | 'u' :: r => (String.ofList r).toNat?
+  | 'd' :: r => (String.ofList r).toNat?.map (· + 100)
+  | 'p' :: r => (String.ofList r).toNat?.map (· + 200)
+  | _ => none
+
+def parseOpt (t : String) : Option (Option Nat) :=
+  if t = "-" then some none else (parseAddr t).map some
+
+/-- the tokens after the first `=` of a `fop` line -/
+def afterEq : List String → List String
+  | [] => []
+  | "=" :: r => r
+  | _ :: r => afterEq r
+
+def parseOp : List String → Option Op
+  | ["deposit", c, t, n, a] => do
+      pure (.deposit (← parseAddr c) (← t.toNat?) (← n.toNat?) (← a.toNat?))
+  | ["claim", c, o] => do pure (.claim (← parseAddr c) (← parseOpt o))
+  | ["claimB", c, o] => do pure (.claimBoosted (← parseAddr c) (← parseOpt o))
+  | ["updateEnergy", u] => do pure (.updateEnergy (← parseAddr u))
+  | "fop" :: u :: rest =>
+      match afterEq rest with
+      | ["ok", e, l, t] => do pure (.setEnergy (← parseAddr u) ⟨← e.toInt?, ← l.toNat?, ← t.toNat?⟩)
+      | _ => none
+  | ["setPerBlock", n] => do pure (.setPerBlock (← n.toNat?))
+  | ["addToken", t] => do pure (.addToken (← t.toNat?))
+  | ["removeToken", t] => do pure (.removeToken (← t.toNat?))
+  | ["addContract", c] => do pure (.addContract (← parseAddr c))
+  | ["removeContract", c] => do pure (.removeContract (← parseAddr c))
+  | ["allowExternal", u, b] => do pure (.allowExternal (← parseAddr u) (b = "1"))
+  | ["pause", b] => some (.pause (b = "1"))
+  | ["advance", n] => do pure (.advance (← n.toNat?))
+  | _ => none
+
+def showPays (l : List (Tok × Nat)) (sep : String) : String :=
+  if l.isEmpty then "-" else sep.intercalate (l.map fun p => s!"{p.1}:{p.2}")
+
+def showEnergy (e : Energy) : String := s!"{e.amount}:{e.lastUpdateEpoch}:{e.totalLocked}"
+
+def showWeek (s : FSt) (k : Nat) : String :=
+  let acc := joinNats ((List.range NTOK).map fun t => s.a.accumulated k t)
+  s!" w{k}={s.w.totalEnergy k}/{s.w.totalLocked k}/{showPays (s.w.totalRewards k) "+"}/{acc}"
+
+def showBuckets (s : FSt) : String :=
+  let ids := (List.range BUCKET_SPAN).map (· + s.w.firstBucketId)
+  let l := ids.filterMap fun i =>
+    let b := s.w.buckets i
+    if b.tokens = 0 ∧ b.surplus = 0 then none else some s!"{i}:{b.tokens}:{b.surplus}"
+  if l.isEmpty then "-" else "+".intercalate l
+
+def showUser (s : FSt) (i : Nat) : String :=
+  let p := match s.w.progress i with
+    | some p => s!"{p.week}:{showEnergy p.energy}"
+    | none => "-"
+  let e := match s.energy i with
+    | some e => showEnergy e
+    | none => "-"
+  s!" u{i}={p} e{i}={e}"
+
+def showState (d : D) : String :=
+  let s := d.s
+  let W := (s.week).getD 0
+  let lo := W - 6
+  let weeks := (List.range (W - lo + 1)).map (· + lo)
+  s!"ep={s.epoch} wk={W} lgw={s.w.lastGlobalUpdateWeek} fb={s.w.firstBucketId} law={s.lastAddWeek} " ++
+  s!"pb={s.perBlock} paused={if s.paused then 1 else 0} toks={joinNats s.a.allTokens} " ++
+  s!"bal={joinNats ((List.range NTOK).map s.bal)} lm={s.lockedMinted}" ++
+  String.join (weeks.map (showWeek s)) ++ s!" bk={showBuckets s}" ++
+  String.join ((List.range d.users).map fun i => showUser s (i + 1))
+
+def parseKnown (ws : List String) : List Tok :=
+  match kv ws "known" with
+  | some v => (v.splitOn ",").filterMap String.toNat?
+  | none => []
+
+def initOf (ws : List String) : D :=
+  let epoch := (kvNat ws "epoch").getD 5
+  let lock := (kvNat ws "lock").getD 1440
+  let users := (kvNat ws "users").getD 3
+  ⟨Fees.init epoch lock (parseKnown ws) [101] [201], users⟩
+
+def handle (d : D) (line : String) : D × Option String :=
+  match words line with
+  | "W" :: rest => (initOf rest, some (" ".intercalate ("W" :: rest)))
+  | "O" :: n :: rest =>
+      match (parseOp rest).bind (step d.s) with
+      | some (s', o) =>
+          let d' : D := { d with s := s' }
+          (d', some s!"R {n} ok pays={showPays o.pays ","} | {showState d'}")
+      | none => (d, some s!"R {n} err")
+  | "Q" :: n :: _ => (d, some s!"V {n} err")
+  | _ => (d, none)
+
+end Mx.FeesDriver
+
+def main : IO Unit :=
+  Mx.Proto.mainLoop (⟨Mx.Fees.init 5 1440 [1, 2] [101] [201], 3⟩ : Mx.FeesDriver.D) Mx.FeesDriver.handle
